@@ -937,6 +937,31 @@ fn partition(
         }
     }
 
+    // Paths with the same file identifier are normally hard links, i.e. different directory
+    // entries. If there are more of them than links to the file, some are the same entry seen
+    // through a symbolic link to a directory or through a bind mount, and dropping such a path
+    // would drop a retained file as well.
+    #[cfg(unix)]
+    {
+        use std::os::unix::fs::MetadataExt;
+        let mut path_counts: HashMap<FileId, u64> = HashMap::new();
+        for f in to_retain
+            .iter()
+            .chain(to_drop.iter())
+            .flat_map(|g| &g.files)
+        {
+            if !is_link(f) {
+                *path_counts.entry(f.metadata.file_id()).or_default() += 1;
+            }
+        }
+        let is_alias = |f: &PathAndMetadata| {
+            !is_link(f) && path_counts[&f.metadata.file_id()] > f.metadata.nlink()
+        };
+        while let Some(i) = to_drop.iter().position(|g| g.files.iter().any(is_alias)) {
+            to_retain.push(to_drop.remove(i));
+        }
+    }
+
     assert!(
         to_retain.iter().filter(|g| is_replica(g)).count() >= n || !to_drop.iter().any(is_replica)
     );
